@@ -7,7 +7,7 @@ NDuts == Len(G.duts)
 VARIABLES d, s,
           ph   \* toggles on a step that changes nothing else: a hung implementation (fixpoint of the product)
                \* must be an infinite NON-stuttering behaviour, or WF_vars(Next) would let TLC walk away from it
-vars == <<d, s, ah, wh, aq, rb, wq, qa, sb, qw, qp, rh, sav, swv, mrv, obs, ph>>
+vars == <<d, s, ah, wh, aq, rb, wq, qa, sb, qw, qp, rh, gp, tr, sav, swv, mrv, obs, ph>>
 C == G.duts[d].cfg
 Init == /\ d \in 1..NDuts /\ s = 0 /\ ph = 0 /\ CInit
 Step(iv) ==
@@ -26,7 +26,7 @@ Alias == [d |-> d, s |-> s, obs |-> obs, aq |-> aq, qa |-> qa, wq |-> wq, rb |->
 (* every requesting master is eventually served: with slaves and masters that cooperate   *)
 (* from some point on, every master with something pending keeps completing handshakes    *)
 Served == (<>[](obs.fair)) => \A i \in 1..MAXN : []<>(obs.prog[i])
-(* the same for masters whose traffic has gaps (each of them is idle infinitely often):     *)
-(* the weaker guarantee a round-robin that only moves on an idle bus can give              *)
-ServedIfGaps == ((<>[](obs.fair)) /\ (\A i \in 1..MAXN : []<>(obs.idle[i]))) => \A i \in 1..MAXN : []<>(obs.prog[i])
+(* DUTs with a round-robin arbiter that only moves on an idle bus are judged with the      *)
+(* environment flag gaps = 1 (see MasterMoves); with gaps = 0 they starve a master under    *)
+(* back-to-back traffic (listed finding)                                                    *)
 =============================================================================
